@@ -20,6 +20,17 @@ pub mod unit_progress {
     pub struct TensorData { _p: u8 }
     pub uninterp spec fn td_is_f32(t: TensorData) -> bool;
     pub uninterp spec fn td_len(t: TensorData) -> int;
+    /// the values held (an abstract sort: nothing in this unit computes with them); `to32` is the f64 -> f32 rendering
+    #[verifier::external_body]
+    pub struct Vals { _p: u8 }
+    pub uninterp spec fn td_vals(t: TensorData) -> Vals;
+    pub uninterp spec fn tensor_vals<B, const D: usize>(t: Tensor<B, D>) -> Vals;
+    pub uninterp spec fn slice_vals<E>(s: Seq<E>) -> Vals;
+    pub uninterp spec fn to32(v: Vals) -> Vals;
+    /// what a run summary is computed from: the tensor's values rendered in f32, and its shape
+    pub open spec fn sample32<B: Backend>(t: Tensor<B, 3>) -> (Vals, Seq<usize>) {
+        (if B::float_is_f32() { tensor_vals(t) } else { to32(tensor_vals(t)) }, tdims(t))
+    }
     pub struct DataError;
     impl core::fmt::Debug for DataError { #[verifier::external_body] fn fmt(&self, f: &mut core::fmt::Formatter<'_>) -> core::fmt::Result { Ok(()) } }
     pub uninterp spec fn tdims<B, const D: usize>(t: Tensor<B, D>) -> Seq<usize>;
@@ -27,7 +38,8 @@ pub mod unit_progress {
         /// `to_data()`: the values in the backend's float element type
         #[verifier::external_body]
         pub fn to_data(&self) -> (r: TensorData)
-            ensures td_is_f32(r) == B::float_is_f32(), D == 3 ==> td_len(r) == tdims(*self)[0] * tdims(*self)[1] * tdims(*self)[2]
+            ensures td_is_f32(r) == B::float_is_f32(), D == 3 ==> td_len(r) == tdims(*self)[0] * tdims(*self)[1] * tdims(*self)[2],
+                td_vals(r) == tensor_vals(*self)
         { unimplemented!() }
         #[verifier::external_body]
         pub fn dims(&self) -> (r: [usize; D]) ensures r@ == tdims(*self) { unimplemented!() }
@@ -36,11 +48,14 @@ pub mod unit_progress {
         /// `as_slice::<E>()`: Err(TypeMismatch) unless E is the stored element type
         #[verifier::external_body]
         pub fn as_slice<E: Element>(&self) -> (r: Result<&[E], DataError>)
-            ensures (r is Ok) == (E::is_f32() == td_is_f32(*self)), r is Ok ==> r->Ok_0@.len() == td_len(*self)
+            ensures (r is Ok) == (E::is_f32() == td_is_f32(*self)), r is Ok ==> r->Ok_0@.len() == td_len(*self) && slice_vals(r->Ok_0@) == td_vals(*self)
         { unimplemented!() }
         /// `convert::<E>()`: the same values converted to element type E
         #[verifier::external_body]
-        pub fn convert<E: Element>(self) -> (r: TensorData) ensures td_is_f32(r) == E::is_f32(), td_len(r) == td_len(self) { unimplemented!() }
+        pub fn convert<E: Element>(self) -> (r: TensorData)
+            ensures td_is_f32(r) == E::is_f32(), td_len(r) == td_len(self),
+                td_vals(r) == (if E::is_f32() == td_is_f32(self) { td_vals(self) } else if E::is_f32() { to32(td_vals(self)) } else { arbitrary() })
+        { unimplemented!() }
     }
     pub struct ShapeError;
     pub struct BoxDynError;
@@ -48,11 +63,12 @@ pub mod unit_progress {
     #[verifier::external_body]
     #[verifier::accept_recursive_types(X)]
     pub struct ArrayView3<'a, X> { _t: core::marker::PhantomData<&'a X> }
+    pub uninterp spec fn view_of<'a, X>(v: ArrayView3<'a, X>) -> (Vals, Seq<usize>);
     impl<'a, X> ArrayView3<'a, X> {
         /// Ok iff the slice has exactly d0*d1*d2 elements
         #[verifier::external_body]
         pub fn from_shape(dims: [usize; 3], s: &'a [X]) -> (r: Result<ArrayView3<'a, X>, ShapeError>)
-            ensures (r is Ok) == (s@.len() == dims@[0] * dims@[1] * dims@[2])
+            ensures (r is Ok) == (s@.len() == dims@[0] * dims@[1] * dims@[2]), r is Ok ==> view_of(r->Ok_0) == (slice_vals(s@), dims@)
         { unimplemented!() }
     }
     #[verifier::external_body]
@@ -60,13 +76,16 @@ pub mod unit_progress {
     impl RunStats {
         /// ASSUMED here (its parts are proved in unit `stats`): total on a well-formed f32 view
         #[verifier::external_body]
-        pub fn from_f32_view(sample: ArrayView3<f32>) -> RunStats { unimplemented!() }
+        pub fn from_f32_view(sample: ArrayView3<f32>) -> (r: RunStats) ensures r == runstats_of(view_of(sample)) { unimplemented!() }
     }
+    /// `RunStats::from_f32_view` is a function of the view (its parts are under contract in unit stats)
+    pub uninterp spec fn runstats_of(v: (Vals, Seq<usize>)) -> RunStats;
     pub struct MultiChainTracker { pub n: usize }
 
     impl MultiChainTracker {
         pub fn stats<B: Backend>(&self, sample: Tensor<B, 3>) -> (r: Result<RunStats, BoxDynError>)
-            ensures r is Ok          // [C10.multichain_stats_conversion_succeeds_for_every_backend_float_type]
+            ensures r is Ok,         // [C10.multichain_stats_conversion_succeeds_for_every_backend_float_type]
+                r->Ok_0 == runstats_of(sample32(sample)),     // [C10.multichain_stats_is_a_function_of_the_sample_not_of_the_tracker]
         //@body id=mct_stats file=src/stats.rs impl_self=MultiChainTracker name=stats props=C10
         //@sig fn stats < B : Backend > (& self , sample : Tensor < B , 3 >) -> Result < RunStats , Box < dyn Error > >
         //@rules R-dynerr
